@@ -1,10 +1,16 @@
 import TrionModel.Model.Trias
 import TrionModel.Driver.Uf2
+import TrionModel.Driver.Asm
+import TrionModel.Model.TriasMain
 /-! Line protocol for the model of the `trias` post-processing.
 
 * `trias post <seg>*` → `ok len=<n> fnv=<digest>` | `err:empty` | `err:crc-overwrite` | `err:uf2:<…>` | `PANIC`
 * `trias dump <seg>*` → the same with ` hex=<file bytes>` appended on success
 * `trias pad  <seg>*` → the segment list after checksum insertion and page padding: `<addr-hex>:<len>:<fnv>` …
+
+* `trias main <name>=<hex> …` (a project as in `asm run`) → what `trias <main> <out>` does to the output file
+  (`Trias.mainOut`): `ok len=<n> fnv=<digest>` (written) | `asm-failed` | `err:empty` | `err:crc-overwrite` |
+  `err:uf2:<…>` (refused: no file created or modified) | `abort:nomain` | `abort:panic` | `abort:fuel` | `abort:loop`
 
 A `<seg>` is `<first-address-hex>:<data>` with `<data>` as in the `uf2` requests (hex, or `#len,a,b`).
 The list must be normalised (ascending, non-touching) — it is what `MemoryMap::iter()` returns.
@@ -41,6 +47,20 @@ def handle : List String → String
       | .ok m1 => " ".intercalate ((padAll m1).map fun (f, d) => s!"{toHex 8 f}:{d.length}:{toHex 16 (Uf2.fnvBytes d).toNat}")
       | .error e => showMsg e
     | none => "bad-op"
+  | "main" :: files =>
+    match Asm.parseFiles files with
+    | some ((main, d) :: rest) =>
+      let all := (main, d) :: rest
+      let fs : Bytes → Option Bytes := fun p => all.lookup (Asm.normPath p)
+      match mainOut fs main with
+      | .written out => s!"ok len={out.length} fnv={toHex 16 (Uf2.fnvBytes out).toNat}"
+      | .refused .asmFailed => "asm-failed"
+      | .refused (.post e) => showMsg e
+      | .aborted .noMain => "abort:nomain"
+      | .aborted .panic => "abort:panic"
+      | .aborted .fuel => "abort:fuel"
+      | .aborted .loop => "abort:loop"
+    | _ => "bad-op"
   | _ => "bad-op"
 
 end Trion.Driver.Trias
